@@ -12,7 +12,7 @@
      same a b    := forall x, In x a <-> In x b                                         (equal as sets) *)
 From Coq Require Import String List Bool Arith.
 From V Require Import Model.Universe Model.Group Model.GroupX Gen.Universes Gen.GroupGen.
-From V Require Import Proofs.GroupProofs Proofs.GroupProofsShipped Proofs.GroupProofsX Proofs.GroupProofsX2 Proofs.GroupProofsX3 Proofs.GroupProofsXShipped.
+From V Require Import Proofs.GroupProofs Proofs.GroupProofsShipped Proofs.GroupProofsX Proofs.GroupProofsX2 Proofs.GroupProofsX3 Proofs.GroupProofsXShipped Proofs.GroupProofsXS Proofs.GroupProofsXS5.
 Import ListNotations.
 Open Scope string_scope.
 Open Scope list_scope.
@@ -295,6 +295,17 @@ Theorem isolated_dimension_extends : forall u s l G, wf_universe u = true -> iso
     /\ (forall d, In d (gimplied G') <-> In d (gimplied G)).
 Proof. exact isolated_extends. Qed.
 Print Assumptions isolated_dimension_extends.
+
+(* lookup_order with ONE skypix dimension: for EVERY skypix dimension of the current universe (41 today) and EVERY
+   subset of its non-skypix dimensions (2^13 today; bound as in lookup_order_bound) lookup_order returns, is a
+   permutation of the elements, lists every element after its required dimensions and every implied dimension after
+   some member that implies it.  Decided on the closed sets (460 today) x the skypix dimensions; the reduction from an
+   arbitrary subset to its closure is generic (mkgroup_cons_closure). *)
+Theorem lookup_order_ok_current_one_skypix : forall s S,
+  In s (skypix_names u_current) -> In S (all_subsets (nonskypix_dimension_names u_current)) ->
+  exists g, mkgroup u_current (s :: S) = GOk g /\ lookup_okb u_current g = true.
+Proof. exact one_skypix_p. Qed.
+Print Assumptions lookup_order_ok_current_one_skypix.
 
 (* ---- non-vacuity: the hypotheses are satisfiable by the real universe and a real group ---- *)
 Example wf_current : wf_universe u_current = true.
